@@ -181,6 +181,9 @@ type c09world struct {
 	seq      int64
 	tags     map[string]bool
 	s2conn   bool
+	// raw peers (c09recv.go): their open connections in order of establishment, next serial number
+	raws    map[int][]*c09raw
+	rawNext map[int]int
 }
 
 func (w *c09world) tag(s string) { w.tags[s] = true }
@@ -429,6 +432,7 @@ func (w *c09world) close() {
 				rec.Tni.Done()
 			}
 		}
+		w.closeRaws()
 		for _, v := range w.victims {
 			w.stop(v)
 			if v.proxy != nil {
@@ -1211,7 +1215,8 @@ func c09exec(c *h.Ctx, cs *h.Case) {
 		os.Setenv("CONODE_SERVICE_PATH", c.Workdir)
 	}
 	w := &c09world{cs: cs, c: c, victims: map[int]*c09victim{}, tags: map[string]bool{},
-		rh: map[int]*network.ServerIdentity{}, rhPeer: map[int]int{}, ptni: map[int]*c09ptni{}, trees: map[int]*c09tree{}}
+		rh: map[int]*network.ServerIdentity{}, rhPeer: map[int]int{}, ptni: map[int]*c09ptni{}, trees: map[int]*c09tree{},
+		raws: map[int][]*c09raw{}, rawNext: map[int]int{}}
 	defer w.close()
 	cs.NoModel = strings.HasPrefix(cs.Class, "cut") || strings.HasPrefix(cs.Class, "orphan")
 	for _, op := range cs.Ops {
@@ -1222,11 +1227,14 @@ func c09exec(c *h.Ctx, cs *h.Case) {
 		tk := strings.Fields(op)
 		obs := "bad-op"
 		switch {
+		case len(tk) == 3 && tk[1] == "herr":
+			obs = c09herr(cs, tk[2])
+			w.tag("herr")
 		case len(tk) == 4 && tk[1] == "open" && (tk[2] == "tcp" || tk[2] == "local" || tk[2] == "tls") && w.s == nil:
 			if ups, ok := c09ints(tk[3]); ok {
 				w.useProxy = strings.HasPrefix(cs.Class, "cut")
 				w.silentClass = strings.HasPrefix(cs.Class, "silent") && tk[2] == "tcp"
-				if w.silentClass {
+				if w.silentClass || (strings.HasPrefix(cs.Class, "recvloop-timeout") && tk[2] == "tcp") {
 					w.oldTimeout = network.VerifSetReadTimeout(1500 * time.Millisecond)
 				}
 				obs = w.open(tk[2], ups)
@@ -1248,9 +1256,17 @@ func c09exec(c *h.Ctx, cs *h.Case) {
 		case len(tk) == 5 && tk[1] == "send":
 			dests, ok := c09ints(tk[3])
 			n, err := strconv.Atoi(tk[4])
+			for _, d := range dests {
+				// a raw peer reads nothing the survivor sends
+				ok = ok && len(w.raws[d]) == 0
+			}
 			if ok && err == nil {
 				obs = w.send(tk[2], dests, n)
 			}
+		case len(tk) == 4 && tk[1] == "rawconn":
+			obs = w.rawConn(tk[2], tk[3])
+		case len(tk) == 5 && tk[1] == "rawev":
+			obs = w.rawEv(tk[2], tk[3], tk[4])
 		case len(tk) == 3 && tk[1] == "selfsend":
 			if n, err := strconv.Atoi(tk[2]); err == nil && n >= 0 {
 				obs = w.selfsend(n)
@@ -1324,7 +1340,7 @@ func c09exec(c *h.Ctx, cs *h.Case) {
 				n := w.connCount(w.sid(p).GetID())
 				obs = strconv.Itoa(n)
 				// the property's own oracle: no entry for a peer that is gone and was reported
-				if p > 0 && !w.victim(p).up && n > 0 && !w.paused {
+				if p > 0 && !w.victim(p).up && len(w.raws[p]) == 0 && n > 0 && !w.paused {
 					cs.Fail("stale-connection-kept", fmt.Sprintf("peer %d is down and its loss was reported, the table still holds %d connection(s) with it", p, n))
 				}
 				w.tag("conns:" + strconv.Itoa(c09bucketN(n)))
@@ -1384,5 +1400,5 @@ func c09exec(c *h.Ctx, cs *h.Case) {
 }
 
 func init() {
-	h.RegisterProp(h.Prop{Name: "c09", Gen: c09gen, Exec: c09exec, Isolate: true, Workers: 6, Timeout: 120 * time.Second})
+	h.RegisterProp(h.Prop{Name: "c09", Gen: c09gen, Exec: c09exec, Isolate: true, Workers: 8, Timeout: 120 * time.Second})
 }
